@@ -36,6 +36,7 @@ func runC16(c *Ctx) {
 	c16Probe(c)
 	c16Accept(c)
 	c16ProbeOn(c)
+	c16WriteCopies(c)
 	c16Capacity(c)
 	c16HeaderLast(c)
 	c16HeaderComplete(c)
@@ -1562,4 +1563,62 @@ func c16ProbeOn(c *Ctx) {
 	if n == 0 {
 		c.Undecided(rule, fnName(find)+"|probe-loop", find.Pos(), "the loop that calls match was not found")
 	}
+}
+
+// c16WriteCopies implements C16.write-copies: io.Writer's contract — Write must not retain p. The cdb writers hash a key
+// by writing it to the package's hash.Hash32; Make reads keys through a 4096-byte buffer and hands the hasher slices of
+// that buffer, a key that straddles a refill arrives in two Writes. A hasher that keeps the slice it was given
+// (round-5 seed c16j) hashes bytes that have been overwritten and files the record under the wrong table.
+func c16WriteCopies(c *Ctx) {
+	rule := "C16.write-copies"
+	c.Rule(rule, "A8 in package go-cdb: no Write([]byte) method stores into a field of its receiver a slice that aliases its parameter (the parameter itself, a re-slice of it, or an append whose FIRST operand aliases it); copies (append(dst, p...), copy) are fine")
+	n := 0
+	for _, fn := range c.OurFuncs(cdbShort) {
+		if fn.Name() != "Write" || fn.Signature.Recv() == nil || len(fn.Params) != 2 || !isByteSlice(fn.Params[1].Type()) {
+			continue
+		}
+		n++
+		c.Examined(fn)
+		p := fn.Params[1]
+		var aliases func(v ssa.Value, depth int) bool
+		aliases = func(v ssa.Value, depth int) bool {
+			if depth > 12 {
+				return false
+			}
+			switch x := v.(type) {
+			case *ssa.Parameter:
+				return x == p
+			case *ssa.Slice:
+				return aliases(x.X, depth+1)
+			case *ssa.ChangeType:
+				return aliases(x.X, depth+1)
+			case *ssa.Phi:
+				for _, e := range x.Edges {
+					if aliases(e, depth+1) {
+						return true
+					}
+				}
+			case *ssa.Call:
+				if ap := isBuiltinCall(x, "append"); ap != nil {
+					return aliases(ap.Call.Args[0], depth+1)
+				}
+			}
+			return false
+		}
+		var bad []string
+		for _, b := range fn.Blocks {
+			for _, in := range b.Instrs {
+				st, ok := in.(*ssa.Store)
+				if !ok {
+					continue
+				}
+				if fa, isFA := st.Addr.(*ssa.FieldAddr); isFA && aliases(st.Val, 0) {
+					bad = append(bad, fieldName(fa.X.Type(), fa.Field))
+				}
+			}
+		}
+		sort.Strings(bad)
+		c.Check(rule, fnName(fn)+"|does-not-retain-p", len(bad) == 0, fn.Pos(), fmt.Sprintf("fields that keep the caller's slice: %v", bad))
+	}
+	c.Floor(rule, 1)
 }
